@@ -326,13 +326,14 @@ func (f *frame) callContract(ct *Contract, sig *types.Signature, args []Val, pos
 	pre := f.st.clone()
 	// havoc the modifies set
 	x.havocModifies(f, ct, env, pre)
-	if ct.Logs != "" {
-		// the callee is logged as a call class (args recorded), e.g. plugin impl calls
-	}
 	// result
 	res := x.vc.freshVal(sig.Results(), "res."+key)
 	res = x.fixPtrs(res)
 	f.assume(x.heap.valAssume(f.st, res))
+	if ct.Logs != "" {
+		// calls of this function are recorded in a ghost call log visible to the callers
+		x.ghostLogCall(f.st, ct.Logs, args, res)
+	}
 	post := x.contractEnv(ct, sig, args, f.st, pre)
 	x.bindResult(post, sig, res)
 	for i := range ct.Ensures {
@@ -410,6 +411,13 @@ func (x *Exec) havocModifies(f *frame, ct *Contract, env *Env, pre *State) {
 	for i := range ct.Modifies {
 		mts := x.resolveModifies(env.inState(pre), &ct.Modifies[i])
 		for _, mt := range mts {
+			if mt.prefix != "" {
+				for _, k := range append([]string{}, h.order...) {
+					if strings.HasPrefix(k, mt.prefix) {
+						f.st.heap[k] = x.vc.Const("hv."+k, h.sorts[k])
+					}
+				}
+			}
 			for j, k := range mt.keys {
 				sort := mt.sorts[j]
 				cur := h.get(f.st, k, sort)
@@ -484,7 +492,7 @@ func (x *Exec) resolveModifies(env *Env, c *Clause) (out []modTarget) {
 			return []modTarget{mt}
 		case "calls":
 			cls := env.strArg(n, 0)
-			mt := modTarget{text: c.Text}
+			mt := modTarget{text: c.Text, prefix: "X:calls:" + cls + ":"}
 			for _, k := range x.ghostCallKeys(cls) {
 				mt.keys = append(mt.keys, k)
 				mt.sorts = append(mt.sorts, h.sorts[k])
@@ -496,6 +504,17 @@ func (x *Exec) resolveModifies(env *Env, c *Clause) (out []modTarget) {
 			mt := modTarget{target: loc.Base, text: c.Text}
 			for _, kind := range []string{"held", "rheld", "epoch", "done"} {
 				k, s := lockKey(kind, loc.Key)
+				h.declare(k, s)
+				mt.keys = append(mt.keys, k)
+				mt.sorts = append(mt.sorts, s)
+			}
+			return []modTarget{mt}
+		case "alllocks":
+			// alllocks("T:path"): the lock embedded at that path in every object of type T
+			key := env.strArg(n, 0)
+			mt := modTarget{text: c.Text}
+			for _, kind := range []string{"held", "rheld", "epoch", "done"} {
+				k, s := lockKey(kind, key)
 				h.declare(k, s)
 				mt.keys = append(mt.keys, k)
 				mt.sorts = append(mt.sorts, s)
